@@ -107,17 +107,31 @@ func dbSeqScenario(prop string, cfgs []dbCfg, steps []seqStep, eager bool, obs *
 				return
 			}
 			nval := 0
+			// every key of the standard universe, every key the steps mention, and one that is never written
+			readKeys := append([]string{}, seqKeys...)
+			for _, st := range steps {
+				for _, o := range st.Prog.Ops {
+					if o.K != "" && !hasStr(readKeys, o.K) {
+						readKeys = append(readKeys, o.K)
+					}
+				}
+			}
+			readKeys = append(readKeys, seqNeverKey)
 			readAll := func(stage string) bool {
 				bad := false
 				err := db.View(func(tx *originium.Txn) error {
-					for _, k := range append(append([]string{}, seqKeys...), seqNeverKey) {
-						v, ok := tx.Get(k)
+					for _, k := range readKeys {
+						vb, ok := tx.Get(xKey(k))
+						v := sVal(k, vb)
+						if !ok {
+							v = ""
+						}
 						obs.reads++
 						want, wok := model[k]
-						if written[k] && !db.VerifInMemtable(k) {
+						if written[k] && !db.VerifInMemtable(xKey(k)) {
 							obs.offMem++
 						}
-						if ok != wok || (ok && string(v) != want) {
+						if ok != wok || (ok && v != want) {
 							kind := "stale-or-wrong"
 							switch {
 							case wok && !ok:
@@ -169,11 +183,11 @@ func dbSeqScenario(prop string, cfgs []dbCfg, steps []seqStep, eager bool, obs *
 							for _, o := range p.Ops {
 								switch o.Op {
 								case "S":
-									tx.Set(o.K, []byte(o.V))
+									tx.Set(xKey(o.K), xVal(o.K, o.V))
 								case "D":
-									tx.Delete(o.K)
+									tx.Delete(xKey(o.K))
 								case "G":
-									tx.Get(o.K)
+									tx.Get(xKey(o.K))
 								}
 							}
 							return e
@@ -271,6 +285,15 @@ func dbSeqScenario(prop string, cfgs []dbCfg, steps []seqStep, eager bool, obs *
 		}
 		return main, nil, check
 	}
+}
+
+func hasStr(s []string, x string) bool {
+	for _, v := range s {
+		if v == x {
+			return true
+		}
+	}
+	return false
 }
 
 func indexOf(s []string, x string) int {
